@@ -147,6 +147,18 @@ class ArrayConstraintBuilder(ConstraintOverrideVisitor):
 #         else:
 #             ConstraintCopyBuilder.visit_expr_fieldref(self, e)
             
+    def visit_expr_indexed_dynref(self, e):
+        super().visit_expr_indexed_dynref(e)
+        if self.phase == 1:
+            # The dynamic constraint of a list element is expanded in place (eg a
+            # foreach inside it), like one that is referenced directly. Inside a 
+            # foreach the copy made for the iteration designates the element
+            ref = self._expr if self.do_copy_level > 0 else e
+            fm = Expr2FieldVisitor().field(ref.root, False)
+            if fm is not None:
+                ArrayConstraintBuilder.build(
+                    fm.constraint_dynamic_model_l[ref.idx], self.bound_m)
+
     def visit_expr_indexed_fieldref(self, e):
         
         e_p = self.foreach_ref_expander.expand(e)
